@@ -167,7 +167,9 @@ def extract_vars(statement):
 
     variables = [v for v in variables if v[2] != ""]
 
-    return sorted(list(set(variables)), key=lambda var: var[2])
+    # Remove duplicates in order of appearance. The sort is stable, so variables of the same
+    # name keep that order (the iteration order of a set differs from process to process).
+    return sorted(dict.fromkeys(variables), key=lambda var: var[2])
 
 
 def func_has_ctx_arg(func):
